@@ -77,7 +77,8 @@ class CfgScenario(explore.Scenario):
         w.ir = ir
         w.model = set()
         if init == "loaded3":
-            for i in (1, 2, 4):
+            for i in [self.universe.index(e_) for e_ in (
+                    ("K1", "P1", None), ("K1", "P1", "L0"), ("P1", "K1", None))]:
                 ir.cfg.add(self.edge(w, i))
                 w.model.add(i)
             buf = io.BytesIO()
